@@ -327,6 +327,10 @@ class Model:
             pred.ctx.add('seq')
         self._gone = x
 
+    def op_rmexpx(self, pred, e):
+        self.op_rmexp(pred, e)
+        pred.trig.add('eol_during_unwinding')
+
     def op_rmobj(self, pred, o):
         ob = self.objs.pop(o)
         if ob.kind in ('W', 'P'):
